@@ -170,6 +170,16 @@ pub fn cases(tier: &str) -> Vec<Value> {
             }
         }
     }
+    // (f) answers larger than what the client accepts over UDP (512 octets without EDNS, or what it
+    // advertised), with the cut falling in the answer, the authority and the additional section:
+    // unless the reply is marked truncated, nothing may be missing
+    for e in ["none", "size:600", "plain"] {
+        for tr in ["udp", "tcp"] {
+            for bulk in [[40usize, 0, 0], [2, 24, 0], [1, 13, 13], [1, 8, 30], [0, 0, 40], [1, 0, 30], [12, 12, 12]] {
+                out.push(json!({"engine":"enet","check":"c03","q":{"name":"www.example.org","type":2,"class":1,"edns":e,"flags":"rd","transport":tr},"r":{"rcode":0,"an":[],"ns":[],"ar":[],"compress":true,"opt":true,"bulk":bulk}}));
+            }
+        }
+    }
     // (d) the same question asked three times with time passing in between, the upstream's TTL
     // changing from reply to reply: whatever the client gets -- relayed or from the cache -- is the
     // most recent upstream reply with its TTLs reduced by exactly the whole seconds since THAT reply
@@ -240,6 +250,28 @@ pub fn build_reply(r: &Value, oq: &Msg) -> Msg {
     };
     let rcode = r["rcode"].as_u64().unwrap_or(0) as u16;
     let mut additional = pick("ar");
+    let mut answer = pick("an");
+    let mut authority = pick("ns");
+    // bulk: [a, n, g] further records -- a address records for the question name, n NS records for
+    // its parent naming ns<i>.glue.<parent>, g address ("glue") records for those names
+    if let Some(b) = r["bulk"].as_array() {
+        let (a, n, g) = (b[0].as_u64().unwrap_or(0) as usize, b[1].as_u64().unwrap_or(0) as usize, b[2].as_u64().unwrap_or(0) as usize);
+        let parent: rd::Name = if qname.len() > 1 { qname[1..].to_vec() } else { qname.clone() };
+        let nsname = |i: usize| -> rd::Name {
+            let mut v = vec![format!("ns{i}").into_bytes(), b"glue".to_vec()];
+            v.extend(parent.iter().cloned());
+            v
+        };
+        for i in 0..a {
+            answer.push(Rr { name: qname.clone(), rtype: rd::T_A, class: 1, ttl: 300, rdata: rd::Rdata::Raw(vec![10, 1, (i >> 8) as u8, i as u8]) });
+        }
+        for i in 0..n {
+            authority.push(Rr { name: parent.clone(), rtype: rd::T_NS, class: 1, ttl: 300, rdata: rd::Rdata::Name(nsname(i)) });
+        }
+        for i in 0..g {
+            additional.push(Rr { name: nsname(i), rtype: rd::T_A, class: 1, ttl: 300, rdata: rd::Rdata::Raw(vec![10, 2, (i >> 8) as u8, i as u8]) });
+        }
+    }
     if r["opt"].as_bool().unwrap_or(false) {
         let o = rd::opt_rr(1232, (rcode >> 4) as u8, 0, false, vec![]);
         match r["opt_pos"].as_str() {
@@ -248,7 +280,7 @@ pub fn build_reply(r: &Value, oq: &Msg) -> Msg {
             _ => additional.push(o),
         }
     }
-    Msg { id: oq.id, flags: 0x8180 | (rcode & 0xf), question: oq.question.clone(), answer: pick("an"), authority: pick("ns"), additional }
+    Msg { id: oq.id, flags: 0x8180 | (rcode & 0xf), question: oq.question.clone(), answer, authority, additional }
 }
 
 pub struct Exchange {
@@ -342,11 +374,24 @@ pub fn judge_faithful(qb_msg: &Msg, upstream: &Msg, client_bytes: &[u8], ttl_min
     }
     let age = |v: &Vec<Rr>| -> Vec<Rr> { v.iter().filter(|r| r.rtype != rd::T_OPT).map(|r| Rr { ttl: r.ttl.wrapping_sub(ttl_minus), ..r.clone() }).collect() };
     let strip = |v: &Vec<Rr>| -> Vec<Rr> { v.iter().filter(|r| r.rtype != rd::T_OPT).cloned().collect() };
+    // A reply marked truncated may lack records from the end (how many is C04's subject); whatever
+    // it carries is still the upstream's, in order: every section a prefix of the upstream's, and
+    // nothing after the first section that was cut.  A reply NOT marked truncated carries everything.
+    let mut cut = false;
     for (name, oracle, got, want) in [
         ("answer", "answer-section", strip(&m.answer), age(&upstream.answer)),
         ("authority", "authority-section", strip(&m.authority), age(&upstream.authority)),
         ("additional", "additional-section", strip(&m.additional), age(&upstream.additional)),
     ] {
+        if m.tc() {
+            let ok = if cut { got.is_empty() } else { got.len() <= want.len() && got[..] == want[..got.len()] };
+            if got.len() < want.len() {
+                cut = true;
+            }
+            if ok {
+                continue;
+            }
+        }
         if got != want {
             out.push((oracle, format!("{name} section differs: client got {} record(s) {:?}, upstream sent {} record(s) {:?}", got.len(), got.iter().map(|r| (rd::name_str(&r.name), r.rtype, r.ttl)).collect::<Vec<_>>(), want.len(), want.iter().map(|r| (rd::name_str(&r.name), r.rtype, r.ttl)).collect::<Vec<_>>())));
         }
@@ -647,7 +692,7 @@ pub fn run(tier: &str, replay: Option<Value>) -> ! {
     let agg = netrun::run_sharded(&mut rep, "C03", tier, cases, 16);
     rep.cov("evaluations", agg.executions);
     rep.cov("distinct_nontrivial", agg.classes.len() as u64);
-    rep.cov("rule", "one fault-free exchange per execution on a fresh in-process DnsService ([::1] listener): (a) every query shape (3 names x 5 types x 2 classes x 5 EDNS x 3 flag sets x UDP/TCP) x fixed replies; (b) fixed queries x every reply shape (rcodes x one section over all record lists of length <=2 from a 9-record alphabet (incl. records whose names share a suffix first written inside an earlier record's rdata), the other sections in {[],[1]} x compression x OPT absent / last / first / in the middle of the additional section); (c) pairs of exchanges on one service whose second question differs from the first in one component (class x3, type x2 (QTYPE ANY is answered locally and therefore not part of this alphabet), name x2, CD, DO, EDNS, or nothing) x transport x order, the second answered differently upstream: the second client must get the upstream's answer to ITS question, or -- only for the identical question -- the first answer; (e) every response code (quick: 0..=23 and the boundary values of the upper 8 bits; thorough: all 4096) x client EDNS none/plain/DO x transport x empty / non-empty sections; (d) the same question asked three times with 1 s / 3 s in between while the upstream's TTL changes (2 s / 300 s per reply, all combinations): every answer is the most recent upstream reply with TTLs reduced by exactly the whole seconds since that reply. distinct = (rcode, section sizes, transport) classes");
+    rep.cov("rule", "one fault-free exchange per execution on a fresh in-process DnsService ([::1] listener): (a) every query shape (3 names x 5 types x 2 classes x 5 EDNS x 3 flag sets x UDP/TCP) x fixed replies; (b) fixed queries x every reply shape (rcodes x one section over all record lists of length <=2 from a 9-record alphabet (incl. records whose names share a suffix first written inside an earlier record's rdata), the other sections in {[],[1]} x compression x OPT absent / last / first / in the middle of the additional section); (c) pairs of exchanges on one service whose second question differs from the first in one component (class x3, type x2 (QTYPE ANY is answered locally and therefore not part of this alphabet), name x2, CD, DO, EDNS, or nothing) x transport x order, the second answered differently upstream: the second client must get the upstream's answer to ITS question, or -- only for the identical question -- the first answer; (f) answers larger than the client accepts over UDP (cut in the answer / authority / additional section; 7 shapes x 3 advertised sizes x UDP/TCP): unless marked truncated nothing may be missing, and what a truncated reply carries is a prefix; (e) every response code (quick: 0..=23 and the boundary values of the upper 8 bits; thorough: all 4096) x client EDNS none/plain/DO x transport x empty / non-empty sections; (d) the same question asked three times with 1 s / 3 s in between while the upstream's TTL changes (2 s / 300 s per reply, all combinations): every answer is the most recent upstream reply with TTLs reduced by exactly the whole seconds since that reply. distinct = (rcode, section sizes, transport) classes");
     rep.cov("exhaustive", true);
     rep.cov("outcome_classes", serde_json::json!(agg.classes));
     rep.cov("workers_in_private_netns", agg.isolated_workers as u64);
